@@ -22,8 +22,8 @@ RULE = ("baseline dilation scenarios (dilate at a random point, subchannel traff
         "connection, no timer. Non-trivial = close was issued while a Manager existed; distinct = "
         "(Manager state, Connector state, closer, role, scenario) at the moment of close.")
 ASSUMPTIONS = ["Noise stand-in", "bounded progress: 300 virtual seconds after close()"]
-FLOORS = {"quick": {"closes_with_manager": 500, "old_peer_cases": 40, "closes_after_bulk_write": 40, "closes_with_peer_paused": 15},
-          "thorough": {"closes_with_manager": 20000, "old_peer_cases": 1500, "closes_after_bulk_write": 2000, "closes_with_peer_paused": 400}}
+FLOORS = {"quick": {"closes_with_manager": 500, "old_peer_cases": 40, "closes_after_bulk_write": 40, "closes_with_peer_paused": 15, "late_dilate_cases": 30},
+          "thorough": {"closes_with_manager": 20000, "old_peer_cases": 1500, "closes_after_bulk_write": 2000, "closes_with_peer_paused": 400, "late_dilate_cases": 1000}}
 
 
 def cases(tier, seed, prep=None):
@@ -52,6 +52,8 @@ def cases(tier, seed, prep=None):
     for i in range(24 if q else 600):
         out.append({"kind": "sweep", "seed": b + 400 + i, "close_at": 300 + (i * 7) % 200, "who": "AB"[i % 2], "stranger": False, "dead_addr": False,
                     "bulk": [1000000, 3000000][i % 2], "peer_paused": True})
+    for i in range(40 if q else 1200):
+        out.append({"kind": "late-dilate", "seed": b + 9000 + i, "when": ["closing", "closed"][i % 2], "peer_dilates": i % 4 < 3})
     for i in range(60 if q else 2000):
         out.append({"kind": "oldpeer", "seed": b + 5000 + i})
     foreign = [{}, {"app_versions": {}}, {"abilities": []}, {"can-dilate": []}, {"can-dilate": ["x"]}, {"app_versions": {"k": 1}, "can-dilate": ["2", "x"]}]
@@ -84,9 +86,66 @@ def owned_leaks(world, dp, name, mgr):
     return leaks
 
 
+def run_late_dilate(spec):
+    """dilate() that comes too late: after close() was called (another task of the application closed the wormhole),
+    possibly after the closed notification. Either it is refused, or whatever it starts is shut down again: nothing may
+    stay behind and a connect() must not hang."""
+    world = World(spec["seed"])
+    rng = world.work_rng
+    r = world.reactor
+    dp = DilatedPair(world, ping_interval=5.0, dilate_now=False, relay=False)
+    sch = Scheduler(world, None, strategy="random", chunking="whole")
+    if spec["peer_dilates"]:
+        sch.faults.append((rng.randint(0, 150), lambda: dp.dilate("B"), "peer dilates"))
+    sch.run(rng.choice([20, 80, 200, 400]))
+    who = "A"
+    app = dp.apps[who]
+    app.close()
+    if spec["when"] == "closing":
+        sch.run(rng.randint(0, 12))
+    else:
+        sch.drain(120.0, 8000, until=lambda: app.closed)
+        sch.run(rng.randint(0, 20))
+    viol = []
+    outcome = None
+    res = []
+    try:
+        dw = app.w.dilate()
+        outcome = "returned"
+        dw.connector_for("p").connect(RecFactory(dp, "A.open")).addBoth(res.append)
+    except Exception as e:
+        outcome = type(e).__name__
+    sch.drain(300.0, 30000, until=lambda: app.closed and (outcome != "returned" or bool(res)))
+    sch.drain(5.0, 3000)
+    wit = {"spec": spec, "outcome": outcome, "closed": app.closed, "verdict": app.close_results, "manager": dp.mstate(who),
+           "connect": [repr(x)[:80] for x in res], "netlog_tail": [x for x in r.netlog if x[0] in ("listen", "unlisten", "dial")][-8:]}
+    if not app.closed:
+        viol.append({"key": "C17/close-never-completes/dilate-after-close", "msg": "close() did not complete (dilate() %s it: %s)" % (spec["when"], outcome), "witness": wit})
+    if outcome == "returned":
+        if not res and dp.mstate(who) != "STOPPED":
+            # (a connect() that is pending when its Manager is stopped stays pending - on any close, not only here;
+            #  the property asks for failing connects only when the peer cannot dilate)
+            viol.append({"key": "C17/connect-hangs/dilate-after-close", "msg": "dilate() issued while %s returned an API object; connect() on it neither fired nor failed in 300 virtual s (Manager %s)" % (
+                spec["when"], dp.mstate(who)), "witness": wit})
+        mgr = dp.manager(who)
+        if mgr is not None and app.closed:
+            for (kind, what, direction, state) in owned_leaks(world, dp, who, mgr)[:1]:
+                viol.append({"key": "C17/leak/%s/%s/%s" % (kind, direction, "after-late-dilate"), "msg": "closed wormhole, dilate() %s it: still owns %s %s" % (spec["when"], kind, what), "witness": wit})
+    elif outcome not in ("WormholeClosed", "CanOnlyDilateOnceError", "NotImplementedError"):
+        viol.append({"key": "C17/late-dilate-raises/" + str(outcome), "msg": "dilate() after close() raised %s" % outcome, "witness": wit})
+    dp.apps["B"].close()
+    sch.drain(120.0, 8000, until=lambda: dp.apps["B"].closed)
+    world.finish()
+    return {"violations": viol, "nontrivial": ["late-dilate", spec["when"], outcome, spec["seed"]],
+            "counters": {"late_dilate_cases": 1, "late_dilate_" + str(outcome): 1, "closed": int(app.closed)},
+            "sets": {}, "sample": {"spec": spec, "outcome": outcome}}
+
+
 def run_case(spec):
     if spec["kind"] == "oldpeer":
         return run_oldpeer(spec)
+    if spec["kind"] == "late-dilate":
+        return run_late_dilate(spec)
     world = World(spec["seed"])
     rng = world.work_rng
     r = world.reactor
